@@ -3453,11 +3453,9 @@ impl Server {
             }).unwrap_or(false);
             
             if should_remove {
-                // Check if connection has active subscriptions before cleaning up
-                if self.pubsub.is_subscribed(id) {
-                    // Skip cleanup for connections with active subscriptions
-                    continue;
-                }
+                // A closing connection (peer went away, or QUIT) is dropped whether or not it
+                // holds subscriptions: its subscriptions are released below, so that PUBLISH
+                // stops counting (and buffering frames for) a client that is gone
                 to_remove.push(id);
             }
         }
